@@ -37,11 +37,12 @@ pub struct St {
     pub sim: Sim,
     pub depth: usize,
     pub totals: BTreeMap<ResourceAddress, ResTotals>,
+    pub fp: Vec<u8>,
 }
 
-pub fn build_root() -> (Snap, World, Extras) {
+pub fn build_root(freezable: bool) -> (Snap, World, Extras) {
     let mut sim = new_sim();
-    let w = build_world(&mut sim);
+    let w = build_world_opt(&mut sim, freezable);
     let x = build_extras(&mut sim, &w, w.f18);
     (sim.create_snapshot(), w, x)
 }
@@ -145,7 +146,9 @@ impl Machine for LedgerMachine {
     fn init(&self) -> St {
         let sim = sim_from(&self.root);
         let totals = scan_totals(sim.substate_db()).expect("root scan");
-        St { sim, depth: 0, totals }
+        let mut st = St { sim, depth: 0, totals, fp: vec![] };
+        st.fp = self.compute_fp(&mut st);
+        st
     }
 
     fn ops(&self, _st: &St, _depth: usize) -> Vec<Tx> {
@@ -153,7 +156,7 @@ impl Machine for LedgerMachine {
     }
 
     fn fork(&self, st: &St) -> Option<St> {
-        Some(St { sim: sim_from(&st.sim.create_snapshot()), depth: st.depth, totals: st.totals.clone() })
+        Some(St { sim: sim_from(&st.sim.create_snapshot()), depth: st.depth, totals: st.totals.clone(), fp: st.fp.clone() })
     }
 
     fn step(&self, st: &mut St, op: &Tx) -> Result<String, (String, String)> {
@@ -169,26 +172,34 @@ impl Machine for LedgerMachine {
             Mode::C04 => {
                 totals_invariant(&after).map_err(|e| ("supply-ne-vaults".to_string(), e))?;
                 if st.depth <= self.full_check_depth {
-                    check_database_quiet(&st.sim, true).map_err(|e| ("engine-checker".to_string(), e))?;
+                    check_database_quiet(&st.sim, true, true).map_err(|e| ("engine-checker".to_string(), e))?;
                 }
             }
             Mode::C05 => {
                 if st.depth <= self.full_check_depth {
-                    check_database_quiet(&st.sim, false).map_err(|e| ("engine-checker".to_string(), e))?;
+                    check_database_quiet(&st.sim, false, false).map_err(|e| ("engine-checker".to_string(), e))?;
                 }
                 crate::c05::ownership_scan(st.sim.substate_db()).map_err(|e| (e.0, e.1))?;
             }
         }
         st.totals = after;
+        st.fp = self.compute_fp(st);
         Ok(format!("{op:?}:{class}"))
     }
 
     fn fingerprint(&self, st: &St) -> Vec<u8> {
-        // SAFETY of abstraction: see module doc.
-        let mut sim = sim_from(&st.sim.create_snapshot());
+        st.fp.clone()
+    }
+}
+
+impl LedgerMachine {
+    /// Semantic fingerprint (see module doc for why merged states have the same futures).
+    fn compute_fp(&self, st: &mut St) -> Vec<u8> {
+        let nres = st.totals.len();
+        let sim = &mut st.sim;
         let comps = [self.w.a.addr, self.w.b.addr, self.x.pool, self.x.validator];
         let res = [self.w.f18, self.w.f2, self.w.nf, self.w.rc, self.x.pool_unit, self.x.stake_unit, self.x.claim_nft];
-        let mut fp = balances_fp(&mut sim, &comps, &res);
+        let mut fp = balances_fp(sim, &comps, &res);
         // XRD: bucketed to whole units for the accounts (fees paid by A in the contingent txs make it vary by dust)
         for c in [self.w.a.addr, self.w.b.addr, self.x.validator] {
             let b = sim.get_component_balance(c, XRD);
@@ -197,7 +208,6 @@ impl Machine for LedgerMachine {
         let epoch = sim.get_current_epoch().number();
         fp.extend(format!("e{epoch};").into_bytes());
         // freeze flag of B's rc vault, number of resources (CreateToken), A's f18 vault lock-free
-        let nres = st.totals.len();
         fp.extend(format!("r{nres};").into_bytes());
         if let Some(v) = sim.get_component_vaults(self.w.b.addr, self.w.rc).first() {
             let frozen: Option<radix_engine::blueprints::resource::FungibleVaultFreezeStatusFieldPayload> = radix_engine::system::system_db_reader::SystemDatabaseReader::new(sim.substate_db())
@@ -210,17 +220,28 @@ impl Machine for LedgerMachine {
 }
 
 pub fn run(ctx: Ctx, mode: Mode) -> ! {
-    let (root, w, x) = build_root();
+    let (root, w, x) = build_root(true);
+    // (depth of the main exploration, depth of the engine-checker exploration, wall cap)
     let (depth, full_depth, cap_s) = match (mode, ctx.quick()) {
         (Mode::C03, true) => (3, 0, 45.0),
         (Mode::C03, false) => (4, 0, 900.0),
-        (Mode::C04, true) => (3, 1, 45.0),
-        (Mode::C04, false) => (4, 2, 900.0),
+        (Mode::C04, true) => (3, 2, 40.0),
+        (Mode::C04, false) => (4, 3, 700.0),
         (Mode::C05, true) => (2, 2, 45.0),
         (Mode::C05, false) => (3, 3, 900.0),
     };
-    let m = LedgerMachine { root, w, x, mode, full_check_depth: full_depth, menu: STD_MENU.to_vec() };
-    let stats: BfsStats = bfs(&ctx, &m, "world+pool+validator", depth, 2_000_000, cap_s);
+    let main_full = if mode == Mode::C04 { 0 } else { full_depth };
+    let m = LedgerMachine { root, w, x, mode, full_check_depth: main_full, menu: STD_MENU.to_vec() };
+    let mut stats: BfsStats = bfs(&ctx, &m, "world+pool+validator", depth, 2_000_000, cap_s);
+    if mode == Mode::C04 && full_depth > 0 {
+        // second exploration on a world without the freezable resource, where the engine's own
+        // resource checkers + event reconciliation can run in every state
+        let (root2, w2, x2) = build_root(false);
+        let menu2: Vec<Tx> = STD_MENU.iter().copied().filter(|t| !matches!(t, Tx::FreezeB | Tx::UnfreezeB)).collect();
+        let m2 = LedgerMachine { root: root2, w: w2, x: x2, mode, full_check_depth: full_depth, menu: menu2 };
+        let s2 = bfs(&ctx, &m2, "world-without-freezable+engine-checkers", full_depth, 2_000_000, cap_s / 2.0);
+        stats.add(&s2);
+    }
     let mut cov = stats.coverage();
     cov.insert("menu".into(), json!(STD_MENU.iter().map(|t| format!("{t:?}")).collect::<Vec<_>>()));
     cov.insert("engine_full_checkers_up_to_depth".into(), json!(full_depth));
